@@ -228,13 +228,14 @@ class Exec:
                 self.write_log.append((root, tuple(idx), self.guard))
         arr.set(idx, v, self.guard)
 
-    def arr_bulk(self, arr, fn, region=None):
+    def arr_bulk(self, arr, fn, region=None, pattern=None):
+        """pattern: per axis the fixed coordinate of the addressed cells, None for axes addressed by a slice"""
         if arr.base is not None:
             raise Unsupported("bulk assignment through a view")
         if self.undo is not None:
             self.undo.append(("arr", arr, arr.re, arr.im))
         if self.write_log is not None:
-            self.write_log.append((arr, None, self.guard))
+            self.write_log.append((arr, tuple(pattern) if pattern is not None else None, self.guard))
         arr.set_all(fn, self.guard, region)
 
     def rollback(self, log):
